@@ -339,7 +339,11 @@ impl World {
             "Load" => {
                 let m = self.models.get(a["m"].as_u64()? as usize - 1)?.clone();
                 let name = a["name"].as_str()?.to_string();
-                let text = a["text"].as_str()?.to_string();
+                // the document is given literally or by the name of one of the driver's fixture documents
+                let text = match a["text"].as_str() {
+                    Some(t) if !t.is_empty() => t.to_string(),
+                    _ => crate::drive::docs().into_iter().find(|(n, _)| Some(n.as_str()) == a["doc"].as_str()).map(|(_, t)| t)?,
+                };
                 let strict = a["strict"].as_bool().unwrap_or(true);
                 Box::new(move || Out::Load(m.load_buffer(text.as_bytes(), name, strict)))
             }
@@ -399,11 +403,13 @@ impl World {
                     ElementContent::CharacterData(cd) => json!({"t": "c", "id": 0, "v": self.cdata_to(&cd, is_ref)}),
                 })
                 .collect();
-            let at: Vec<Value> = if is_root {
-                vec![]
-            } else {
-                e.attributes().map(|a| json!({"n": a.attrname.to_str(), "v": self.cdata_to(&a.content, false)})).collect()
-            };
+            // the three namespace / schema attributes of the root are fixed (xsi:schemaLocation is rewritten by every
+            // serialize(), also by the observation itself) and are not part of the observation
+            let at: Vec<Value> = e
+                .attributes()
+                .filter(|a| !(is_root && matches!(a.attrname, AttributeName::xsiSchemalocation | AttributeName::xmlns | AttributeName::xmlnsXsi)))
+                .map(|a| json!({"n": a.attrname.to_str(), "v": self.cdata_to(&a.content, false)}))
+                .collect();
             let par = match e.parent() {
                 Ok(Some(p)) => json!({"t": "e", "v": self.id_of(&p)}),
                 Ok(None) => {
